@@ -293,3 +293,20 @@ Example spec_formals_covered :
       then negb (is_qname_attr (prov_qn l)) && is_time_attr (prov_qn l)
       else is_qname_attr (prov_qn l)) (snd (fst k))) spec_kinds = true.
 Proof. vm_compute. reflexivity. Qed.
+
+(* a literal of a foreign datatype (not in the XML Schema namespace) whose prefix the scope binds *)
+Theorem spec_xml_foreign : forall ft scope fl a lex d, is_qname_attr a = false -> intl_string d = false ->
+  ns_prefix (qn_ns d) <> "" -> contains_char colon (ns_prefix (qn_ns d)) = false ->
+  lookup (ns_prefix (qn_ns d)) scope = Some (ns_uri (qn_ns d)) ->
+  String.eqb (ns_uri (qn_ns d)) XmlSpec.xsd_ns = false ->
+  spec_xml_value ft scope fl a (VLit lex (Some d) None) = Some (content_value (VLit lex (Some d) None)).
+Proof.
+  intros ft scope fl a lex d Q NI NE C B NX. unfold spec_xml_value, xml_emit. norm_always. cbn [prov_str]. rewrite Q, NI.
+  assert (E : qn_str d = ns_prefix (qn_ns d) ++ String colon (qn_local d)).
+  { unfold qn_str. destruct (ns_prefix (qn_ns d)); [contradiction | reflexivity]. }
+  cbn [andb negb]. rewrite !andb_false_r. cbn [andb].
+  cbn [xout_attrs xout_text x_text x_type x_lang x_ref app].
+  unfold XmlSpec.read_value, xattr. cbn [find fst snd String.eqb Ascii.eqb Bool.eqb andb xsi_ns xml_ns spec_prov_uri].
+  rewrite E, (resolve_pair_pref scope _ _ _ C B). rewrite NX. cbn [negb].
+  unfold pair_uri. cbn [fst snd]. rewrite NX. reflexivity.
+Qed.
